@@ -193,8 +193,9 @@ func (g *bridgeGen) newDepositTx(flaw string) *depInfo {
 	if g.r.Intn(8) == 0 {
 		value = []int64{999, 1000, 1001, 9999, 10000, 10001, 20000, 30000}[g.r.Intn(8)]
 	} else if g.r.Intn(10) == 0 {
-		// whale deposits: 18.4 - 20 BTC, around 2^64 / 1e10 satoshi (the satoshi -> wei scaling must not be done in 64 bits)
-		value = []int64{1_844_674_407, 1_844_674_408, 1_844_674_409 + g.r.Int63n(100_000_000), 2_000_000_000}[g.r.Intn(4)]
+		// whale deposits: 18.4 - 19.9 BTC, around 2^64 / 1e10 satoshi (the satoshi -> wei scaling must not be done in 64 bits); always
+		// below project.BigVal (2e9), which stands for "any 64-bit parameter value above the model's integers"
+		value = []int64{1_844_674_407, 1_844_674_408, 1_844_674_409 + g.r.Int63n(100_000_000), 1_990_000_000}[g.r.Intn(4)]
 	}
 	d := &depInfo{version: version, key: key, evm: evm, value: value,
 		gen: Ev{"key": project.KeyID(key.Pub), "evm": hex.EncodeToString(evm), "version": int(version), "magicOk": true}}
